@@ -56,7 +56,7 @@ type entCase struct {
 
 // a rejected SetWordList call (unknown list) must leave the selected list in place
 func rejectedSelection() error {
-	for _, name := range []string{"no-such-list", "English", ""} {
+	for _, name := range []string{"no-such-list", "klingon-2048", ""} {
 		if err := bip39.SetWordList(name); err == nil {
 			return fmt.Errorf("SetWordList(%q) succeeded; there is no such list", name)
 		}
